@@ -33,8 +33,8 @@ func runC06(c *eng.Ctx) {
 	}
 	// ---------------------------------------------------------------- (1) CONST-blocksizes
 	type role struct {
-		fn           string
-		rel          string
+		fn             string
+		rel            string
 		largeI, smallI int
 	}
 	for _, r := range []role{
@@ -117,7 +117,10 @@ func runC06(c *eng.Ctx) {
 		}
 		return "", token.NoPos
 	}
-	type bsite struct{ rel, name, size string; params []string }
+	type bsite struct {
+		rel, name, size string
+		params          []string
+	}
 	ref := "large"
 	for _, s := range []bsite{
 		{"weed/storage/erasure_coding", "encodeDatFile", "remainingSize", []string{"largeBlockSize"}},
@@ -319,4 +322,3 @@ func runC06(c *eng.Ctx) {
 		}
 	}
 }
-
